@@ -756,7 +756,7 @@ func (e *Engine) execInstr(st *State, instr ssa.Instruction) {
 		i := st.operand(in.Index)
 		if x.K == KSlice {
 			st.guard("index", sAnd(sLe("0", i.T), sLt(i.T, x.Len)), in.Pos())
-			set(in, Val{K: KAddr, T: "(elem " + x.Base + " " + sAdd(x.Off, i.T) + ")", Ty: in.Type(), Root: x.Root, NonNil: true})
+			set(in, Val{K: KAddr, T: elemAt(x.Base, x.Off, i.T), Ty: in.Type(), Root: x.Root, NonNil: true})
 		} else { // pointer to array
 			if !x.NonNil {
 				st.guard("nil", sNot(sEq(x.T, "null")), in.Pos())
